@@ -134,6 +134,9 @@ def judge_groups(cases, c_outs):
             ob = b"" if d["out"] == "-" else bytes.fromhex(d["out"])
             if "OVERREAD" in d["extra"]:
                 why[i] = "a read returned more than asked"
+            elif "MIDSTREAM" in d["extra"]:
+                why[i] = ("in mid-stream the reported length / CRC are not those of the bytes returned so far: " +
+                          [t for t in d["extra"].split() if t.startswith("MIDSTREAM")][0])
             elif len(ob) > declen:
                 why[i] = "returned %d bytes, declared length %d" % (len(ob), declen)
             elif int(d["len"]) != len(ob):
